@@ -32,6 +32,8 @@ structure SqlInst where
   out     : List (Slice × String × String) := []   -- batches handed out since the last wait, with their statement
   handler : Bool := false
   res     : Nat := 0
+  rerr    : Nat := 0            -- result-handler calls that were given Exec's error
+  mode    : Nat := 0            -- outcome of Exec: 0 ok, 1 returns an error, 2 panics (RunSafe recovers: no result-handler call)
   gate    : Bool := false
   hits    : Nat := 0            -- threshold hand-overs since the gate was closed
   helper  : Option (List Nat) := none   -- rows the parked helper goroutine still has to insert
@@ -83,7 +85,9 @@ def tokAfter (toks : List String) (key : String) : Option String :=
 /-- take the pending rows out (Flush): a non-empty batch goes to Exec with the CURRENT statement -/
 def SqlInst.flush (i : SqlInst) : SqlInst :=
   let r := SqlC.removeAll i.c
-  if r.2.len > 0 then { i with c := r.1, out := i.out ++ [(r.2, i.pre, i.suf)], res := if i.handler then i.res + 1 else i.res }
+  if r.2.len > 0 then { i with c := r.1, out := i.out ++ [(r.2, i.pre, i.suf)],
+                                res := if i.handler ∧ i.mode ≠ 2 then i.res + 1 else i.res,
+                                rerr := if i.handler ∧ i.mode = 1 then i.rerr + 1 else i.rerr }
   else { i with c := r.1 }
 
 /-- insert rows one by one; with `stopAtHit` the inserting goroutine parks at its first hand-over (the flusher is
@@ -113,7 +117,7 @@ def expectWait (h : Heap String) (i : SqlInst) : List String :=
     | some q =>
       let ns := rows.filterMap fun r => (String.ofList ((r.toList.drop 1).dropLast)).toNat?
       some (ns.headD 0, s!"x={sqlHash q}|{us pre}|{",".intercalate (showRows ns)}|{us suf}")
-  (sortExecs execs).map (·.2) ++ [s!"res={i.res}", "bad=0"]
+  (sortExecs execs).map (·.2) ++ [s!"res={i.res}", s!"rerr={i.rerr}", "bad=0"]
 
 def sqlxLine (max : Int) (hook : Bool) (sec : Nat) (acc : Report × SqlxSt) (l : Line) : Report × SqlxSt := Id.run do
   let (r0, s) := acc
@@ -196,9 +200,25 @@ def sqlxLine (max : Int) (hook : Bool) (sec : Nat) (acc : Report × SqlxSt) (l :
       if impl ≠ "ok" then r := r.mismatch sec l.idx "ok" impl
       if i.c.values.len > 0 then r := r.addCover "sqlx-flush-takes-partial-batch"
       return (r, s.set k i.flush)
-    | "hand" =>
+    | "hand" | "handp" =>
       if impl ≠ "ok" then r := r.mismatch sec l.idx "ok" impl
-      return (r, s.set k { i.flush with handler := true })
+      -- a handler that panics after counting: RunSafe recovers, the flusher / the caller go on
+      return (r.addCover ("sqlx-result-handler-" ++ (if op = "handp" then "panicking" else "counting")), s.set k { i.flush with handler := true })
+    | "unhand" =>
+      if impl ≠ "ok" then r := r.mismatch sec l.idx "ok" impl
+      return (r.addCover "sqlx-result-handler-nil", s.set k { i.flush with handler := false })
+    | "mode" =>
+      let some m := arg | return bad
+      if m > 2 then return bad
+      if impl ≠ "ok" then r := r.mismatch sec l.idx "ok" impl
+      return (r.addCover s!"sqlx-exec-outcome-{if m = 0 then "ok" else if m = 1 then "error" else "panic"}-{if i.handler then "with" else "without"}-result-handler",
+              s.set k { i.flush with mode := m })
+    | "insx" =>
+      -- `format` rejects the arguments: Insert returns the error BEFORE executor.Add — nothing is accepted
+      if impl ≠ "err" then
+        r := r.mismatch sec l.idx "err" impl
+        return (r, { s with dead := true })
+      return (r.addCover "sqlx-insert-rejected-by-format", s)
     | "stmt" =>
       let some si := arg | return bad
       let i1 := i.flush
@@ -259,6 +279,8 @@ def sqlxLine (max : Int) (hook : Bool) (sec : Nat) (acc : Report × SqlxSt) (l :
           r := r.mismatch sec l.idx (joinSp wantToks) impl
           return (r, { s with dead := true })
       if i1.out.length > 1 then r := r.addCover "sqlx-several-batches-in-one-wait"
+      if i1.out.length > 0 ∧ i1.mode = 1 then r := r.addCover "sqlx-batches-executed-while-Exec-returns-an-error"
+      if i1.out.length > 0 ∧ i1.mode = 2 then r := r.addCover "sqlx-batches-executed-while-Exec-panics"
       return (r, s.set k { i1 with out := [], since := [] })
     | _ => return bad
   | _ => return bad
